@@ -52,3 +52,4 @@ def check(ctx):
     ctx.floor("HAM-mps", 12)
     canon.gauge_moves(ctx)   # the values C02 compares are read off moved orthogonality centres
     drivers.adapter_column_order(ctx)
+    drivers.make_h_binding(ctx)
